@@ -61,6 +61,17 @@ Programs ==
      \* between the two sync() calls lets the writer enter housekeeping before the second one starts
      syncflag |-> [cfg |-> Cf(2, None, None, FALSE),
                    progs |-> <<<<I(1,1,1), I(1,2,2), I(1,3,1), I(1,4,2)>>, <<SY, G(2), SY>>>>],
+     \* a queued insert killed by invalidate_all; while maintenance is about to remove it from the
+     \* map (m.w2, m.w3) another thread writes the key again
+     deadrm |-> [cfg |-> Cf(2, None, None, FALSE),
+                 progs |-> <<<<I(1,1,1), ADV(1), XA, SY, G(1)>>, <<I(2,1,1), G(1)>>>>],
+     \* expiry beside a maintenance run that another thread's write has triggered (with scaled
+     \* queues the fourth insert finds the write queue at its flush point): the reader looks at an
+     \* entry that is past its deadline while the housekeeper is busy
+     ttihk  |-> [cfg |-> Cf(2, None, 1, FALSE),
+                 progs |-> <<<<I(1,1,1), I(1,2,2), ADV(1), I(1,3,2), I(1,4,2)>>, <<G(1), G(1)>>>>],
+     ttlhk  |-> [cfg |-> Cf(2, 1, None, FALSE),
+                 progs |-> <<<<I(1,1,1), I(1,2,2), ADV(1), I(1,3,2), I(1,4,2)>>, <<G(1), G(1)>>>>],
      farw   |-> [cfg |-> Cf(1, None, None, FALSE),
                  progs |-> <<<<I(1,1,1), SY, ADV(1), I(1,3,2), X(1), G(2)>>, <<G(2), SY, G(2)>>>>],
      farx   |-> [cfg |-> Cf(2, 1, None, FALSE),
@@ -116,12 +127,27 @@ Refill(s) ==
         s2 == FillUp([s1 EXCEPT !.now = s1.now + 3], 1, want)   \* beyond every expiry deadline in use
     IN [want |-> want, kept |-> Cardinality({k \in 1..want : Visible(s2, k) /\ s2.map[k].v = 900 + k})]
 
+\* the probe of C03 (b): a fresh key whose weight is exactly the room that the values held leave
+\* must be admitted without displacing anybody (the smallest key not resident, if there is one
+\* and there is room)
+ProbeKey(s) == LET F == {k \in Keys : ~s.map[k].p} IN IF F = {} THEN 0 ELSE CHOOSE k \in F : \A j \in F : k <= j
+ProbeRoom(s) == IF s.cfg.cap = None THEN 1 ELSE s.cfg.cap - SeqSum([j \in DOMAIN ResOf(s) |-> ResOf(s)[j].tw])
+ProbeOk(s) ==
+    LET k == ProbeKey(s)
+        room == ProbeRoom(s)
+        w == IF s.cfg.weigher THEN room ELSE 1
+        s2 == DoSync(Insert(s, k, 800 + k, w))
+    IN k = 0 \/ room < 1 \/ (~s.cfg.weigher /\ room < 1) \/
+       (/\ Visible(s2, k) /\ s2.map[k].v = 800 + k
+        /\ \A j \in Keys : Visible(s, j) => (Visible(s2, j) /\ s2.map[j].v = s.map[j].v))
+
 SumRes(s) == SeqSum([j \in DOMAIN ResOf(s) |-> ResOf(s)[j].tw])   \* the weights of the values held
 FinalOk(s) ==
     /\ s.ec = Len(ResOf(s)) /\ s.ws = SumRes(s)                       \* C10
     /\ s.cfg.cap # None => SumRes(s) <= s.cfg.cap                     \* C04
     /\ s.rch = <<>> /\ s.wch = <<>>
-    /\ Refill(s).kept = Refill(s).want                                \* C03
+    /\ ProbeOk(s)                                                     \* C03 (b)
+    /\ Refill(s).kept = Refill(s).want                                \* C03 (c)
 
 OpId(t, ip) == t * 100 + ip
 
@@ -140,13 +166,15 @@ StepT(t) ==
            ret == [ev |-> "Ret", t |-> t, id |-> OpId(t, th.ip), r |-> g2.th[t].res, now |-> g2.s.now]
            ps1 == IF starting THEN P02Update(ps, inv) ELSE ps
            okr == ~finished \/ Allowed_C02(ps1, ret)
+           ok5 == ~finished \/ Allowed_C05c(P.cfg, ps1, ret)
+           ok6 == ~finished \/ Allowed_C06c(P.cfg, ps1, ret)
            ps2 == IF finished THEN P02Update(ps1, ret) ELSE ps1
        IN /\ g' = GCanon(g2)
           /\ ps' = ps2
-          /\ bad' = IF okr THEN {} ELSE {"C02"}
+          /\ bad' = (IF okr THEN {} ELSE {"C02"}) \cup (IF ok5 THEN {} ELSE {"C05"}) \cup (IF ok6 THEN {} ELSE {"C06"})
           /\ h' = IF Emit THEN Append(h, t) ELSE h
           /\ UNCHANGED <<fin, pp>>
-          /\ (Emit => PrintT(<<"EDGE", ToJson([prog |-> Prog, cfg |-> P.cfg, progs |-> P.progs, sched |-> h',
+          /\ (Emit => PrintT(<<"EDGE", ToJson([prog |-> Prog, cfg |-> P.cfg, progs |-> P.progs, sched |-> h', tag |-> PcAt(th),
                                                last |-> [pcs |-> [u \in TIds |-> PcAt(g2.th[u])],
                                                          res |-> ResOf(g2.s), rlen |-> Len(g2.s.rch),
                                                          wlen |-> Len(g2.s.wch)]])>>))
@@ -157,6 +185,7 @@ Finale ==
            e == [ev |-> "Final", items |-> IterItems(s2)]
        IN /\ g' = [g EXCEPT !.s = s2]
           /\ bad' = (IF Allowed_C02(ps, e) THEN {} ELSE {"C02"}) \cup (IF FinalOk(s2) THEN {} ELSE {"FINAL"})
+                     \cup (IF Allowed_C03c(P.cfg, ps, e) THEN {} ELSE {"C03"})
           /\ fin' = TRUE
           /\ UNCHANGED <<ps, h, pp>>
 
